@@ -185,6 +185,9 @@ from contracts import C10 as _c10      # noqa: E402
 
 _c10._mk_unit(2, 0, "memory", True, ("quick", "thorough"), prop="C07")
 _c10._mk_unit(2, 0, "memory", False, ("quick", "thorough"), prop="C07")
+# symmetrisation applies the declared transformations through Transform.__call__ (sign, conjugation, transposition together): C08's unit, here as well
+from contracts.C08 import _transform_unit as _c08_transform      # noqa: E402
+_c08_transform(prop="C07")
 
 
 # ------------------------------------------------------------------ bounded stand-in: installed run()
